@@ -165,6 +165,10 @@ def _num(node):
 
 # ---- Lean rendering ---------------------------------------------------------------------
 def lstr(s):
+    if not isinstance(s, str):
+        # a value of another shape than the table expects (e.g. a list of vendors where one vendor is expected): rendered as
+        # its marked repr, so that the table differs from the model's and the kernel obligation fails
+        s = "!unexpected:" + repr(s)
     out = []
     for ch in s:
         if ch == "\\":
